@@ -992,6 +992,8 @@ class Interp(object):
                 return norm(res)
             if k == Fraction(1, 2):
                 return self.math_call("sqrt", [A])
+            if k == Fraction(3, 2):
+                return norm((A * Num.of(self.math_call("sqrt", [A]))).as_float())
         if A.is_concrete() and B.is_concrete() and self.math_mode == "float":
             return Num.of(float(A.frac()) ** float(B.frac()))
         return Num("float", r=UF["pow"](A.real(), B.real()))
